@@ -443,7 +443,8 @@ class TaskDispatcher(object):
         https://docs.aws.amazon.com/step-functions/latest/dg/limits.html
         We do the test here as we have the raw JSON string handy.
         """
-        if len(message_body) > MAX_DATA_LENGTH:
+        if (len(message_body) > MAX_DATA_LENGTH and  # (characters, not bytes)
+            len(message_body.decode("utf8", "replace")) > MAX_DATA_LENGTH):
             result = {"errorType": "States.DataLimitExceeded"}
         else:
             try:
